@@ -239,6 +239,45 @@ def bf_check(case, ctx):
     return res
 
 
+# ---- types beyond 2^31 and 2^32 bytes -------------------------------------------------------------------------------
+
+HUGE_SIZES = [(1 << 31) - 1, 1 << 31, (1 << 32) - 1, 1 << 32, (1 << 32) + 1, (1 << 33) + 4, 1 << 40]
+
+
+def huge_enum(ctx):
+    for k, sz in enumerate(HUGE_SIZES):
+        for shape in range(5):
+            yield {"size": sz, "shape": shape, "k": k}
+
+
+def huge_check(case, ctx):
+    """sizeof/_Alignof/offsetof of aggregates whose size or member offsets do not fit 31 or 32 bits (only tables are emitted)."""
+    res = Result()
+    sz, k = case["size"], case["k"]
+    n = "h%d_%d" % (k, case["shape"])
+    if case["shape"] == 0:
+        text, paths = "struct %s { char pad[%dUL]; int tail; short last; }" % (n, sz), ["tail", "last"]
+    elif case["shape"] == 1:
+        text, paths = "struct %s { char pad[%dUL]; }" % (n, sz), ["pad"]
+    elif case["shape"] == 2:
+        text, paths = "union %s { char big[%dUL]; long l; short s; }" % (n, sz), ["l"]
+    elif case["shape"] == 3:
+        text, paths = "struct %s_in { char pad[%dUL]; long q; }; struct %s { char c; struct %s_in in; char z; struct %s_in arr[2]; }" % (n, sz, n, n, n), ["in", "in.q", "z", "arr[1].q"]
+    else:
+        text, paths = "struct %s { short a[%dUL]; char z; long m:3; double d; }" % (n, (sz + 1) // 2, ), ["z", "d"]
+    kw = text.split()[-0] if False else ("union" if case["shape"] == 2 else "struct")
+    tn = "%s %s" % (kw, n)
+    entries = ["sizeof(%s)" % tn, "_Alignof(%s)" % tn] + ["__builtin_offsetof(%s, %s)" % (tn, p_) for p_ in paths]
+    src = "%s;\nunsigned long v0[] = { %s };\n" % (text, ", ".join(entries))
+    c = {"src": src, "names": [("v0", tn, len(entries))], "flags": ["huge"], "nontrivial": [text], "std": "gnu11"}
+    compare(ctx, c, res, cproc.TARGETS)
+    if res.fail is None:
+        res.keys.append(sha(text))
+    res.labels.append("huge:2^%d" % (sz.bit_length() - 1))
+    res.sample = {"src": src[:300]}
+    return res
+
+
 def input_check(case, ctx):
     """Replay of an explicit table file {src, names, std}; sig from the case for recorded findings."""
     res = Result()
@@ -254,5 +293,6 @@ def sources(ctx):
     return [
         Source("input", input_check, enum=lambda ctx: iter(())),
         Source("bf-enum", bf_check, enum=bf_enum, exhaustive=True),
+        Source("huge", huge_check, enum=huge_enum, exhaustive=True),
         Source("layout", layout_check, strategy=lambda c: layout_cases(), examples={"quick": 1500, "thorough": 40000}),
     ]
